@@ -4,6 +4,7 @@ package main
 
 import (
 	"fmt"
+	"github.com/IrineSistiana/mosproxy/internal/pool"
 	"strings"
 	"sync"
 	"time"
@@ -11,7 +12,7 @@ import (
 
 func init() {
 	register(&Check{ID: "C04", Level: "exploration",
-		Rule: "concurrent clients over all 8 listener kinds x 9 upstream transports, hot (repeated) and unique names, upstream replies delayed 0-50 ms (reordered), answers of 1-30 records of every pooled record type, cache off / tiny (eviction) / ample; replies that arrive after the 6 s deadline; plus the in-process cache stress (large values overwritten while readers are delayed inside their copy) judged for foreign or torn values; " +
+		Rule: "concurrent clients over all 8 listener kinds x 9 upstream transports, hot (repeated) and unique names, upstream replies delayed 0-50 ms (reordered), answers of 1-30 records of every pooled record type, cache off / tiny (eviction) / ample; replies that arrive after the 6 s deadline; plus the in-process cache stress (large values overwritten while readers are delayed inside their copy) judged for foreign or torn values, and in-process histories on the multiplexed upstream transports (reordered / duplicated / late replies, callers giving up at any moment) judged for replies handed to the wrong or to two callers; " +
 			"one evaluation = one response checked against the keyed-answer oracle; distinct non-trivial = distinct (configuration, listener, upstream) cells with at least one keyed answer verified",
 		Run: runC04})
 }
@@ -37,6 +38,14 @@ func runC04(c *Ctx) {
 		return !strings.HasPrefix(sig, "sanitizer-report:") && !strings.HasPrefix(sig, "data-race:cache")
 	}
 	c07Stress(c)
+	c.sigFilter = nil
+	// in-process histories on the multiplexed upstream transports (shared with C05): callers that
+	// give up at every possible moment while replies are reordered, duplicated and delayed. Judged
+	// here with the content oracle only: a caller that gets a message gets the reply the server made
+	// for its own question (R2), and no reply is handed to two callers (R4).
+	c.sigFilter = func(sig string) bool { return strings.HasPrefix(sig, "R2:") || strings.HasPrefix(sig, "R4:") }
+	pool.VerifSetQuarantine(0)
+	parallelFor(c.N(80, 800), 40, func() bool { return c.ViolationCount() >= 5 }, func(idx int) { c05History(c, idx) })
 	c.sigFilter = nil
 	for round := 0; round < rounds; round++ {
 		var wg sync.WaitGroup
